@@ -338,17 +338,27 @@ def reference(name: str, cfg: str) -> dict:
     if fkey not in _reference:
         sub = Subject(name)
         plain = mu.FirstOrderMutator(list(ALL_OPERATORS if ops == "all" else REFINE_OPERATORS))
-        full = [sub.descriptor(muts[0]) for muts, _ in plain.mutate(sub.tree, sub.module)]
-        _reference[fkey] = {"full": full}
+        full, err = [], ""
+        try:                      # a broken enumeration must end as a verdict on a schedule, not here
+            for muts, _ in plain.mutate(sub.tree, sub.module):
+                full.append(sub.descriptor(muts[0]))
+        except Exception as ex:  # noqa: BLE001
+            err = type(ex).__name__
+        _reference[fkey] = {"full": full, "err": err}
     full = _reference[fkey]["full"]
+    err = _reference[fkey]["err"]
     if c["kind"] == "hom":
         sub = Subject(name)
         randomness.RNG.seed(RNG_SEED)
-        groups = [[sub.descriptor(m) for m in muts]
-                  for muts, _ in make_mutator(c).mutate(sub.tree, sub.module)]
+        groups = []
+        try:
+            for muts, _ in make_mutator(c).mutate(sub.tree, sub.module):
+                groups.append([sub.descriptor(m) for m in muts])
+        except Exception as ex:  # noqa: BLE001
+            err = err or type(ex).__name__
     else:
         groups = [[d] for d in full]
-    _reference[key] = {"full": full, "groups": groups}
+    _reference[key] = {"full": full, "groups": groups, "err": err}
     return _reference[key]
 
 
@@ -363,6 +373,7 @@ class _Session:
         self.intern: dict[tuple, int] = {}
         self.full = [self._id(d) for d in ref["full"]]
         self.ref = [[self._id(d) for d in g] for g in ref["groups"]]
+        self.ref_err = ref["err"]
         self.trees: dict[str, int] = {}
         self.attr0: str | None = None
         self.attr_changed = False
@@ -544,4 +555,5 @@ def replay(beh: dict) -> dict:
     c = s.c
     return {"mod": s.name, "cfg": s.cfg, "route": s.route, "kind": c["kind"], "cap": c["cap"],
             "full": s.full, "ref": s.ref, "ev": s.events,
-            "meta": {"identical_mutants": s.identical, "attr_changed": s.attr_changed}}
+            "meta": {"identical_mutants": s.identical, "attr_changed": s.attr_changed,
+                     "reference_raised": s.ref_err}}
